@@ -45,11 +45,11 @@ class Interp(base.Interp):
     def op_dict_roundtrip(self, **kw):
         return self._quiet(super().op_dict_roundtrip, **kw)
 
-    def op_convert(self, src, to, via):
+    def op_convert(self, src, to, via, dtype=None):
         target = to
         if not self.pool:
             return
-        self.ops.append(("convert", dict(src=src, to=to, via=via)))
+        self.ops.append(("convert", dict(src=src, to=to, via=via, **({"dtype": dtype} if dtype else {}))))
         obj, m = self._src(src)
         if m["x"].ndim != 2:
             return
@@ -57,20 +57,44 @@ class Interp(base.Interp):
             target = "numpy"
         w = {"cls": m["cls"], "from": m["xp"], "to": target, "bits": m["bits"], "via": via,
              "fields": "".join(k[4] for k in ("log_likelihood", "log_prior", "log_q") if m[k] is not None)}
+        if dtype:
+            # only where the conversion method offers the option (BaseSamples does; the Samples / SMCSamples overrides take no
+            # dtype -- an API difference, not something C15 speaks about): elsewhere the plain conversion is made
+            import inspect
+
+            meth = obj.to_numpy if via == "to_numpy" else obj.to_namespace
+            if "dtype" not in inspect.signature(meth).parameters:
+                dtype = None
+        kw = {"dtype": dtype} if dtype else {}
+        if dtype:
+            # a width asked for in the conversion call itself is "a precision requested by the user"
+            w["requested"] = dtype
         try:
-            out = obj.to_numpy() if via == "to_numpy" else obj.to_namespace(xp_of(target))
+            out = obj.to_numpy(**kw) if via == "to_numpy" else obj.to_namespace(xp_of(target), **kw)
         except Exception as e:  # noqa: BLE001 -- the statement promises that every ordered pair succeeds
             raise Violation("c15.convert_raised", f"{m['cls']} ({m['xp']} float{m['bits']}) .{via}({'' if via == 'to_numpy' else target}) raised "
                             f"{type(e).__name__}: {e}", {**w, "error_type": type(e).__name__})
         mm = dict(m)
         mm["xp"] = target
+        if dtype:
+            import numpy as np
+
+            mm["bits"] = 32 if dtype == "float32" else 64
+            npdt = np.float32 if mm["bits"] == 32 else np.float64
+            for k in ("x", "log_likelihood", "log_prior", "log_q"):
+                if mm[k] is not None:
+                    mm[k] = mm[k].astype(npdt)
+            # weights were computed at the width the set had when it was weighted: judge them at the narrowest width so far
+            mm["value_bits"] = min(m.get("value_bits", m["bits"]), mm["bits"])
         try:
             self._compare(out, mm, f"convert:{m['xp']}->{target}")
         except Violation as v:
             suffix = v.oracle.split(".", 1)[1]
-            raise Violation("c15.convert_" + suffix, f"{m['cls']} {m['xp']} float{m['bits']} -> {target} ({via}): " + v.message,
+            raise Violation("c15.convert_" + suffix, f"{m['cls']} {m['xp']} float{m['bits']} -> {target} ({via}{', dtype=' + dtype if dtype else ''}): " + v.message,
                             {**w, **{k: v_ for k, v_ in (v.where or {}).items() if k == "field"}})
-        self.col.nontrivial.add(("convert", m["cls"], m["xp"], target, m["bits"], w["fields"], via))
+        self.col.nontrivial.add(("convert", m["cls"], m["xp"], target, m["bits"], w["fields"], via, dtype))
+        if dtype:
+            self.col.probe("conversion_with_requested_width")
         self._put(out, mm)
 
 
@@ -78,8 +102,9 @@ def make_machine(interp_factory, workdir, col):
     Base = base.make_machine(interp_factory, workdir, col)
 
     class C15ConvMachine(Base):
-        @rule(src=st.integers(0, 20), to=st.sampled_from(["numpy", "torch", "jax"]), via=st.sampled_from(["to_namespace", "to_namespace", "to_numpy"]))
-        def convert(self, src, to, via):
-            self.do("convert", src=src, to=to, via=via)
+        @rule(src=st.integers(0, 20), to=st.sampled_from(["numpy", "torch", "jax"]), via=st.sampled_from(["to_namespace", "to_namespace", "to_numpy"]),
+              dtype=st.sampled_from([None, None, None, "float32", "float64"]))
+        def convert(self, src, to, via, dtype):
+            self.do("convert", src=src, to=to, via=via, dtype=dtype)
 
     return C15ConvMachine
